@@ -254,3 +254,278 @@ impl Check for Escapes {
         r
     }
 }
+
+/* ------------------------------ binder patterns that can fail ------------------------------ */
+
+/// Constructor patterns in binder position (C01: "a failed irrefutable pattern" is an undefined
+/// machine state). Every binder construct x every nesting of a constructor pattern x every
+/// constructor of the scrutinee's type as the run-time value. A pattern over a one-constructor type
+/// is irrefutable and must keep working (C03 control); a pattern over a two-constructor type either
+/// is rejected or, if accepted, must not fail at run time for any value of the type.
+pub struct BinderPatterns {
+    prop: &'static str,
+    cases: Vec<(usize, usize, usize, usize)>,
+}
+/// (pattern, result variable or literal, scrutinee type, the values of that type: (source, does the pattern accept it, result))
+fn binder_patterns() -> Vec<(&'static str, &'static str, &'static str, Vec<(&'static str, bool, &'static str)>)> {
+    vec![
+        ("+Only(n)", "n", "One", vec![("+Only(5)", true, "Integer(5)")]),
+        ("+S(n)", "n", "Nat", vec![("+S(3)", true, "Integer(3)"), ("+Z()", false, "")]),
+        ("+Z()", "0", "Nat", vec![("+Z()", true, "Integer(0)"), ("+S(3)", false, "")]),
+        ("+Only(+S(n))", "n", "OneNat", vec![("+Only(+S(3))", true, "Integer(3)"), ("+Only(+Z())", false, "")]),
+    ]
+}
+const BP_NESTINGS: [&str; 6] = ["alone", "last", "first", "named", "package", "alias"];
+const BP_BINDERS: [&str; 9] = ["let", "do", "thunk-param", "inline-fn", "value-let", "value-fn", "comatch-arg", "fix-body-let", "def-param"];
+impl BinderPatterns {
+    pub fn new(prop: &'static str) -> Self {
+        let mut cases = vec![];
+        for (p, (_, _, _, vals)) in binder_patterns().iter().enumerate() {
+            // C03 only claims the irrefutable control
+            if prop == "C03" && p != 0 {
+                continue;
+            }
+            for n in 0..BP_NESTINGS.len() {
+                // constructor members of an alias pattern are rejected by design (docs/proposals/
+                // field-projection.md: "constructor payloads are deferred"): no acceptance claim
+                if prop == "C03" && BP_NESTINGS[n] == "alias" {
+                    continue;
+                }
+                for b in 0..BP_BINDERS.len() {
+                    for v in 0..vals.len() {
+                        cases.push((p, n, b, v));
+                    }
+                }
+            }
+        }
+        BinderPatterns { prop, cases }
+    }
+    fn text(case: &(usize, usize, usize, usize)) -> (String, bool, &'static str) {
+        let (p, n, b, v) = *case;
+        let (pat, res, ty, vals) = binder_patterns().swap_remove(p);
+        let (val, accepts, expect) = vals[v];
+        let val = format!("({val} : {ty})");
+        let (npat, nval, nty) = match BP_NESTINGS[n] {
+            | "alone" => (pat.to_string(), val.clone(), ty.to_string()),
+            | "last" => (format!("(k, {pat})"), format!("(1, {val})"), format!("Int64 * {ty}")),
+            | "first" => (format!("({pat}, k)"), format!("({val}, 1)"), format!("{ty} * Int64")),
+            | "named" => (format!("(l = {pat})"), format!("(l = {val})"), format!("(l :: {ty})")),
+            | "package" => (format!("(W, {pat})"), format!("((Int64, {val}) : exists (X : VType) . {ty})"), format!("exists (X : VType) . {ty}")),
+            | _ => (format!("({pat}; whole)"), val.clone(), ty.to_string()),
+        };
+        let body = match BP_BINDERS[b] {
+            | "let" => format!("let {npat} = {nval} in ret {res}"),
+            | "do" => format!("do {npat} <- ret {nval}; ret {res}"),
+            | "thunk-param" => format!("let f = {{ fn ({npat} : {nty}) => ret {res} }} in ! f {nval}"),
+            | "inline-fn" => format!("(fn ({npat} : {nty}) => ret {res}) {nval}"),
+            | "value-let" => format!("ret (let {npat} = {nval} in {res})"),
+            | "value-fn" => format!("let f = fn ({npat} : {nty}) => {res} in ret (f {nval})"),
+            | "comatch-arg" => format!("let o : Thk (codata | .go : {nty} -> Ret Int64 end) = {{ comatch | .go {npat} => ret {res} end }} in ! o .go {nval}"),
+            | "fix-body-let" => format!("(fix (self : Thk ({nty} -> Ret Int64)) => fn (x : {nty}) => let {npat} = x in ret {res}) {nval}"),
+            | _ => format!("def ! f ({npat} : {nty}) : Ret Int64 = ret {res} in ! f {nval}"),
+        };
+        (
+            format!(
+                "begin\n  let VType = @(intrinsic(vtype)) that\n  let Ret = @(intrinsic(ret)) that\n  let Thk = @(intrinsic(thk)) that\n  let Unit = @(intrinsic(unit)) that\n  let Int64 = @(intrinsic(i64)) that\n  let One = data | +Only : Int64 end that\n  let Nat = data | +Z : Unit | +S : Int64 end that\n  let OneNat = data | +Only : Nat end that\n  {body}\nend\n"
+            ),
+            accepts,
+            expect,
+        )
+    }
+}
+impl Check for BinderPatterns {
+    fn property(&self) -> &'static str {
+        self.prop
+    }
+    fn name(&self) -> String {
+        format!("{}-binder-patterns", self.prop.to_lowercase())
+    }
+    fn len(&self) -> usize {
+        self.cases.len()
+    }
+    fn describe(&self, i: usize) -> String {
+        let (p, n, b, v) = self.cases[i];
+        format!("pattern #{p}, nesting {}, binder {}, value #{v}\n{}", BP_NESTINGS[n], BP_BINDERS[b], Self::text(&self.cases[i]).0)
+    }
+    fn rule(&self) -> String {
+        format!(
+            "{} programs = constructor patterns (over a one-constructor type: irrefutable; over a two-constructor type and nested under a one-constructor type: refutable) x 6 nestings (alone, last / first tuple component, under a named wrapper, as the payload of an existential package, as a member of an alias pattern) x 9 binder constructs (let, do, thunk parameter, inline function parameter, value-level let, pure value function parameter, comatch argument, let under fix, def parameter) x every constructor of the type as the run-time value; oracle for {}: {}; non-trivial = accepted programs",
+            self.cases.len(),
+            self.prop,
+            if self.prop == "C01" { "an accepted program never stops in a failed pattern (or any other undefined state)" } else { "the irrefutable pattern over the one-constructor type is accepted in every binder and nesting that accepts a variable there, and returns the payload" }
+        )
+    }
+    fn run(&mut self, i: usize) -> CaseResult {
+        let scratch = Scratch::new("c01bind");
+        let case = self.cases[i];
+        let (text, _accepts, expect) = Self::text(&case);
+        let path = scratch.write("main.zydeco", &text);
+        let mut r = CaseResult::ok("form").key(i as u64);
+        let class = format!("{} binder, {} nesting", BP_BINDERS[case.2], BP_NESTINGS[case.1]);
+        match guarded(|| {
+            let s = Subject::analyze(&path);
+            let v = s.verdict();
+            let run = if v.accepted() { Some(s.run(b"", &[], 5000)) } else { None };
+            (v, run)
+        }) {
+            | Err(_) => r = r.count("front_end_panics_counted_by_C10", 1),
+            | Ok((v, None)) => {
+                r = r.count(&format!("rejected_{}", v.tag()), 1);
+                if !matches!(v, Verdict::Rejected(_)) {
+                    r = r.violation(format!("MACHINERY: binder-pattern program is not well formed ({})", v.tag()), format!("{class}\n{:?}\n{text}", v));
+                } else if self.prop == "C03" {
+                    // the control: is the same program with a variable in place of the constructor pattern accepted?
+                    let plain = text.replace("+Only(n)", "nn").replace("ret n\n", "ret 5\n").replace("in n)", "in 5)").replace("=> n in", "=> 5 in").replace("ret n end", "ret 5 end").replace("ret n }", "ret 5 }").replace("ret n)", "ret 5)").replace("ret n in", "ret 5 in");
+                    let ppath = scratch.write("plain.zydeco", &plain);
+                    let plain_ok = guarded(|| Subject::analyze(&ppath).verdict().accepted()).unwrap_or(false);
+                    if plain_ok {
+                        r = r.violation(format!("irrefutable constructor pattern rejected in a binder ({class}): {}", crate::front::short_msg(&format!("{:?}", v))), format!("{class}\n{:?}\n{text}", v));
+                    } else {
+                        r = r.count("binder_form_not_available_even_with_a_variable", 1);
+                    }
+                }
+            }
+            | Ok((_, Some(run))) => {
+                r = r.nontrivial(true).count("accepted", 1);
+                match &run.end {
+                    | RunEnd::Panic(p) => {
+                        if self.prop == "C01" {
+                            r = r.violation(format!("accepted program fails in a binder pattern ({}): {}", BP_BINDERS[case.2], crate::front::short_msg(&p.msg)), format!("{class}\n{:?}\n{text}", run.end));
+                        }
+                    }
+                    | RunEnd::Ret(got) => {
+                        if self.prop == "C03" && got != expect {
+                            r = r.violation("irrefutable constructor pattern binds the wrong payload".to_string(), format!("{class}\n{got} instead of {expect}\n{text}"));
+                        }
+                    }
+                    | _ => {}
+                }
+            }
+        }
+        r
+    }
+}
+
+/* ------------------------------ the annotation of a fix binder ------------------------------ */
+
+/// `fix (x : T) => body`: the rule demands T = Thk B (up to transparent aliases) and body : B.
+/// Every annotation of a small catalogue (thunk types written directly, through aliases and alias
+/// operators, with a hole; data types, applications of sealed / abstract / data type operators to a
+/// computation type, sealed aliases of a thunk type, Ret, Int64, products) x bodies that ignore the
+/// binder, force it, or match on it x two contexts.
+pub struct FixAnnotations {
+    prop: &'static str,
+    cases: Vec<(usize, usize, usize)>,
+}
+/// (annotation, is it a thunk type of `Ret Int64`?)
+const FIX_ANNS: [(&str, bool); 14] = [
+    ("Thk (Ret Int64)", true),
+    ("TI", true),
+    ("Th (Ret Int64)", true),
+    ("Thk _", true),
+    ("Bx (Ret Int64)", false),
+    ("Al (Ret Int64)", false),
+    ("Ret Int64", false),
+    ("Sealed", false),
+    ("SealedOp (Ret Int64)", false),
+    ("F (Ret Int64)", false),
+    ("Int64", false),
+    ("Int64 * Int64", false),
+    ("Co (Ret Int64)", false),
+    ("Bx2 Int64 (Ret Int64)", false),
+];
+/// (body, well typed at Ret Int64 when x : Thk (Ret Int64)?)
+const FIX_BODIES: [(&str, bool); 4] = [("ret 1", true), ("! x", true), ("match x | +Box(t) => ! t end", false), ("match x | +Mk(t) => ! t end", false)];
+impl FixAnnotations {
+    pub fn new(prop: &'static str) -> Self {
+        let mut cases = vec![];
+        for a in 0..FIX_ANNS.len() {
+            for b in 0..FIX_BODIES.len() {
+                for c in 0..3 {
+                    cases.push((a, b, c));
+                }
+            }
+        }
+        FixAnnotations { prop, cases }
+    }
+    fn text(case: &(usize, usize, usize)) -> (String, bool) {
+        let (a, b, c) = *case;
+        let (ann, thunk) = FIX_ANNS[a];
+        let (body, body_ok) = FIX_BODIES[b];
+        let fix = format!("fix (x : {ann}) => {body}");
+        let abstract_f = ann.starts_with("F ");
+        let root = match (c, abstract_f) {
+            | (0, false) => fix,
+            | (1, false) => format!("do y <- ({fix}); ret y"),
+            | (_, false) => format!("let t = {{ {fix} }} in ! t"),
+            // the annotation mentions a type operator variable: abstract over it and instantiate with a data operator
+            | (0, true) => format!("let f = {{ fn (F : CType -> VType) => {fix} }} in ! f Bx"),
+            | (1, true) => format!("let f = {{ fn (F : CType -> VType) => do y <- ({fix}); ret y }} in ! f Bx"),
+            | (_, true) => format!("let f = {{ fn (F : CType -> VType) => {fix} }} in ! f Al"),
+        };
+        (
+            format!(
+                "begin\n  let VType = @(intrinsic(vtype)) that\n  let CType = @(intrinsic(ctype)) that\n  let Ret = @(intrinsic(ret)) that\n  let Thk = @(intrinsic(thk)) that\n  let Unit = @(intrinsic(unit)) that\n  let Int64 = @(intrinsic(i64)) that\n  def Bx (T : CType) : VType = data | +Box : Thk T end that\n  def Bx2 (A : VType) (T : CType) : VType = data | +Box : Thk T end that\n  let Al (T : CType) = data | +Mk : Thk T end that\n  def Co (T : CType) : CType = codata | .run : T end that\n  let TI = Thk (Ret Int64) that\n  let Th (B : CType) = Thk B that\n  def Sealed : VType = Thk (Ret Int64) that\n  def SealedOp (B : CType) : VType = Thk B that\n  {root}\nend\n"
+            ),
+            thunk && body_ok,
+        )
+    }
+}
+impl Check for FixAnnotations {
+    fn property(&self) -> &'static str {
+        self.prop
+    }
+    fn name(&self) -> String {
+        format!("{}-fix-annotations", self.prop.to_lowercase())
+    }
+    fn len(&self) -> usize {
+        self.cases.len()
+    }
+    fn describe(&self, i: usize) -> String {
+        format!("{:?}\n{}", self.cases[i], Self::text(&self.cases[i]).0)
+    }
+    fn rule(&self) -> String {
+        format!(
+            "{} programs = 14 annotations of a fix binder (thunk types: direct, through an alias, through an alias operator, with a hole; non-thunk types: applications of a sealed data operator, of a transparent data operator, of a two-parameter sealed operator, of a sealed thunk operator, of an abstract operator variable instantiated with a data operator, of a codata operator, Ret, a sealed alias of a thunk type, Int64, a product) x 4 bodies (ignore the binder, force it, match on it with either constructor) x 3 contexts (root, bound by do, inside a forced thunk); reference: well typed iff the annotation is transparently `Thk (Ret Int64)` and the body uses the binder as that thunk; oracle for {}: {}; non-trivial = every case",
+            self.cases.len(),
+            self.prop,
+            if self.prop == "C01" { "whatever is accepted runs without going wrong" } else { "accepted iff well typed" }
+        )
+    }
+    fn run(&mut self, i: usize) -> CaseResult {
+        let scratch = Scratch::new("c03fix");
+        let case = self.cases[i];
+        let (text, well_typed) = Self::text(&case);
+        let path = scratch.write("main.zydeco", &text);
+        let mut r = CaseResult::ok("form").key(i as u64).nontrivial(true);
+        let class = format!("annotation `{}`, body `{}`", FIX_ANNS[case.0].0, FIX_BODIES[case.1].0);
+        match guarded(|| {
+            let s = Subject::analyze(&path);
+            let v = s.verdict();
+            let run = if v.accepted() { Some(s.run(b"", &[], 3000)) } else { None };
+            (v, run)
+        }) {
+            | Err(_) => r = r.count("front_end_panics_counted_by_C10", 1),
+            | Ok((v, None)) => {
+                r = r.count(&format!("rejected_{}", v.tag()), 1);
+                if !matches!(v, Verdict::Rejected(_)) {
+                    r = r.violation(format!("MACHINERY: fix-annotation program is not well formed ({})", v.tag()), format!("{class}\n{:?}\n{text}", v));
+                } else if well_typed && self.prop == "C03" {
+                    r = r.violation(format!("well-typed fix rejected (annotation `{}`)", FIX_ANNS[case.0].0), format!("{class}\n{:?}\n{text}", v));
+                }
+            }
+            | Ok((_, Some(run))) => {
+                r = r.count("accepted", 1);
+                if !well_typed && self.prop == "C03" {
+                    r = r.violation(format!("fix with a binder that is not used at a thunk type is accepted (annotation `{}`)", FIX_ANNS[case.0].0), format!("{class}\n{:?}\n{text}", run.end));
+                }
+                if let RunEnd::Panic(p) = &run.end {
+                    if self.prop == "C01" {
+                        r = r.violation(format!("accepted fix goes wrong (annotation `{}`): {}", FIX_ANNS[case.0].0, crate::front::short_msg(&p.msg)), format!("{class}\n{:?}\n{text}", run.end));
+                    }
+                }
+            }
+        }
+        r
+    }
+}
